@@ -191,6 +191,51 @@ def check_window(ctx, P):
     ctx.check(ok and good == 4, "window", "digit-use", "digit d > 0: + table[d/2]; d < 0: - table[-d/2]; a-digits use ai, b-digits use BI", "double_scalarmult_vartime does not add table[|d|/2] for positive and subtract it for negative digits from the right tables: %s" % uses, where=fn.where(), key="window:digit-use")
 
 
+def check_scan(ctx, P):
+    """The digit scan of double_scalarmult_vartime must start at the LAST slide position: Scalar::slide() can carry a
+    signed-window digit into position 255 even for scalars below 2^255, so a scan from 254 drops it."""
+    import re as _re
+    fn = P.fn("curve25519::ge::GePartial::double_scalarmult_vartime")
+    slides = {l: int(_re.match(r"^\[i8; (\d+)\]$", t).group(1)) for l, t in enumerate(fn.locals) if _re.match(r"^\[i8; (\d+)\]$", t or "")}
+    idx_locals = set()
+    for b in fn.reachable():
+        for st in fn.stmts(b):
+            if st[0] != "=":
+                continue
+            for e in walk(st[2]):
+                pass
+    # index locals: every `slide[_i]` projection
+    def places(x):
+        if isinstance(x, (list, tuple)):
+            if len(x) == 2 and isinstance(x[0], int) and isinstance(x[1], list):
+                yield x
+            for y in x:
+                for z in places(y):
+                    yield z
+    for b in fn.reachable():
+        for st in fn.stmts(b):
+            for pl in places(st):
+                if pl[0] in slides:
+                    for pj in pl[1]:
+                        if isinstance(pj, (list, tuple)) and pj and pj[0] == "i":
+                            # the index temp is a copy of the loop variable: follow single-definition copies
+                            e = fn.expr(("cp", [pj[1], []]))
+                            for v in walk(e):
+                                if v[0] == "var":
+                                    idx_locals.add(v[1])
+    inits = []
+    loops = fn.loop_blocks()
+    for b in fn.reachable():
+        if b in loops:
+            continue
+        for st in fn.stmts(b):
+            if st[0] == "=" and not st[1][1] and st[1][0] in idx_locals and st[2][0] == "use" and st[2][1][0] == "k" and isinstance(st[2][1][1].get("v"), int):
+                inits.append((st[1][0], st[2][1][1]["v"]))
+    n = set(slides.values())
+    ok = len(n) == 1 and len(slides) == 2 and len(inits) == 1 and inits[0][1] == list(n)[0] - 1
+    ctx.check(ok, "window", "scan-start", "the digit scan starts at position %s = len(slide) - 1" % (inits[0][1] if inits else "?"), "double_scalarmult_vartime does not start its digit scan at the last slide position (slide arrays %s, scan start %s): a carry digit at the top position would be dropped" % (sorted(n), inits), where=fn.where(), key="window:scan-start")
+
+
 def check_convention(ctx, P):
     """verify computes h*A' + s*B and compares with R, which is correct iff A' = -A: exactly one of
     {the decoder returns the negated point, verify negates the decoded point} must hold."""
@@ -213,6 +258,7 @@ def run(ctx):
     ctx.guard("canonical", "scalar64", lambda: C15.check_scalar64(ctx, P))
     ctx.guard("table", "scalar64", lambda: C13.check_tables(ctx, P))
     ctx.guard("window", "double_scalarmult_vartime", lambda: check_window(ctx, P))
+    ctx.guard("window", "scan-start", lambda: check_scan(ctx, P))
     ctx.guard("table", "BI/fe64", lambda: C15.check_tables(ctx, P, "fe64"))
     P2 = ctx.prog("K2")
     ctx.guard("canonical", "scalar32", lambda: check_s32(ctx, P2))
